@@ -44,17 +44,19 @@ META = dict(
           "spellings in every state of depth < bound, volume() alone in the deepest states; the lattice grid (4 lengths, 4 angles, every subset of "
           "b, c, alpha, beta, gamma given, 3 call spellings) once per composition."),
     bound=dict(
-        quick=("depth 2; compositions: the 11 atoms with count 1 and 2, and 24 two- and three-atom formulas covering "
+        quick=("depth 2; compositions: the 11 atoms with count 1, D2, Fe[56]{3+}2, Cl{-}2, and 24 two- and three-atom formulas covering "
                "every class pair (natural / isotope / ion / isotope ion / no tabulated density)"),
         thorough=("depth 2 over the 11 atoms with counts 1, 2, 0.5, every unordered pair of atoms as A2B, and the quick "
-                  "list; depth 3 over the one- and two-atom formulas of the quick list with the third event restricted to "
-                  "assignments and to substitutions whose source is present, portions {0.25, 1}")),
+                  "list; depth 3 over the 11 atoms (count 1) and 10 two-atom formulas (list DEEP) with the third event "
+                  "restricted to assignments and to substitutions whose source is present, portions {0.25, 1}")),
     assumptions=[
         "neutral element / isotope masses, element densities and covalent radii are read from the library (C06, C20); "
         "the electron mass from periodictable.constants",
         "'that atom's density' of a one-atom formula is atom.density as served by the library",
         "both keywords at once, a keyword together with a tag, natural_density of a formula whose density is unknown, "
         "replace(a, a, p), and assigning None are not in the alphabet (the statement is silent)",
+        "the default density of a formula of several atoms is not judged; where the library leaves it None that is the "
+        "'unknown density' state",
         "after a substitution on a formula of unknown density that leaves a single atom the density is not judged "
         "('stays unknown' and 'a single-atom formula defaults to that atom's density' both apply)",
         "zero-count entries left behind by a substitution are ignored",
@@ -132,6 +134,11 @@ MULTI = ["H2 O", "D2 O", "H D O", "H[1]2 O[18]", "D0.5 H1.5 O", "Fe O", "Fe2 O3"
          "Fe{2+}0.5 Fe[56]{3+}0.5 Cl{-}2.5", "O[18] O"]
 
 
+# thorough tier: explored to depth 3 (together with the 11 atoms with count 1)
+DEEP = ["H2 O", "D2 O", "H[1]2 O[18]", "Fe[56]2 O[18]3", "Fe{2+} Cl{-}2", "Fe[56]{3+} Cl{-}3", "Fe{2+} Fe[56]{3+}",
+        "Fe[56] Fe", "Cl{-} D", "At H"]
+
+
 def _parse_comp(text):
     out = []
     for part in text.split():
@@ -144,10 +151,10 @@ def _parse_comp(text):
 def compositions(tier):
     """[(label, entries)]; entries are listed in the order they are written."""
     out = []
-    single_counts = (1, 2) if tier == "quick" else (1, 2, 0.5)
     for t in TOKS:
-        for c in single_counts:
-            out.append([(t, c)])
+        for c in (1, 2, 0.5):
+            if tier != "quick" or c == 1 or (c == 2 and t in ("D", "Fe[56]{3+}", "Cl{-}")):
+                out.append([(t, c)])
     for m in MULTI:
         out.append(_parse_comp(m))
     if tier != "quick":
@@ -521,8 +528,11 @@ class Graph(object):
             raise MachineryError("cannot build %r: %r" % (self.text, e))
         acc.evaluations += 1
         comp0 = dict(self.comp0)
-        rule0 = "default-density:" + ("one-atom" if len(R.nonzero(comp0)) == 1 else "several-atoms")
-        if not self.check_state(f0, comp0, self.root_rho(base), rule0, base, ()):
+        one = len(R.nonzero(comp0)) == 1
+        rule0 = "default-density:" + ("one-atom" if one else "several-atoms")
+        # the statement gives the default of a one-atom formula only; a formula of several atoms without a
+        # density is the "unknown" state if the library says None, and is not judged (nor explored) otherwise
+        if not self.check_state(f0, comp0, self.root_rho(base), rule0, base, (), rho_judged=one):
             return
         # steps 2, 3: the bare setter / getter pair
         for kind in ("attr_d", "attr_n"):
@@ -553,9 +563,17 @@ class Graph(object):
                 rule = ("default-density:" + ("one-atom" if len(R.nonzero(comp0)) == 1 else "several-atoms")
                         if form[0] == "none" else "construct:" + form[0].replace("_", "-"))
                 rho = self.root_rho(form)
-                if not self.check_state(f, comp0, rho, rule, form, (),
+                if not self.check_state(f, comp0, rho, rule, form, (), rho_judged=(one or form[0] != "none"),
                                         ratio_dependent_density=form[0] in ("kw_n", "attr_n", "tag_n")):
                     return
+                if form[0] == "none" and not one:
+                    try:
+                        unknown = f.density is None
+                    except Exception:
+                        unknown = False
+                    if not unknown:
+                        acc.count("roots_of_several_atoms_with_a_default_density(not judged)")
+                        continue
                 acc.count("root_forms")
                 acc.outcome("root:" + form[0])
                 if how == "str":
@@ -611,7 +629,7 @@ def _shard(args):
 def run(ctx):
     quick = ctx.quick
     jobs = []
-    deep = set(comp_text(e) for e in compositions("quick") if len(e) <= 2)
+    deep = set(comp_text(_parse_comp(m)) for m in DEEP) | set(TOKS)
     for e in compositions(ctx.tier):
         depth = 2 if quick or comp_text(e) not in deep else 3
         jobs.append((ctx.tier, [list(x) for x in e], depth))
@@ -632,8 +650,12 @@ def replay(ctx, case, signature=None):
             "attr_d": "set-density", "attr_n": "set-natural-density"}.get(
                 form[0], "construct:" + form[0].replace("_", "-"))
     rho = g.root_rho(form)
-    if not g.check_state(f, comp0, rho, rule, form, (), ratio_dependent_density=form[0] in ("kw_n", "attr_n", "tag_n")):
+    one = len(R.nonzero(comp0)) == 1
+    if not g.check_state(f, comp0, rho, rule, form, (), rho_judged=(one or form[0] != "none"),
+                         ratio_dependent_density=form[0] in ("kw_n", "attr_n", "tag_n")):
         return
+    if form[0] == "none" and not one and f.density is not None:
+        return                      # not the 'unknown density' state: nothing to replay
     st = State(f, comp0, rho, (), False)
     if "lattice" in case:
         g.check_lattice(f, form)
